@@ -6,6 +6,7 @@ import XzVerif.Lemmas.RangeCoderAdaptive
 import XzVerif.Lemmas.LzmaChunk
 import XzVerif.Lemmas.RangeCoderRename
 import XzVerif.Lemmas.Lzma1ExecFinal
+import XzVerif.Lemmas.Lzma1EncLimit
 import XzVerif.Lemmas.Lzma2ExecTop
 import XzVerif.Model.Lzma2Enc
 import XzVerif.Model.Lzma2
@@ -260,13 +261,30 @@ theorem lzma1_model_roundtrip (p : Props) (hp : PropsOk p) (dictSize : Nat) (hd 
 example : (lzma1Encode { lc := 0, lp := 0, pb := 0 } 4096 true 0 (ByteArray.mk #[97]) 0 #[]).toOption.map (·.consumed) = some 1 := by
   decide +kernel
 
-/-- NOT proved (stated for MicroLZMA): with an output limit the model keeps a prefix of the symbols whose coded size, incl.
-    the flush, is within the limit, and reports the number of bytes they cover. Tested against the C encoder exactly
-    (bytes, consumed count, and the decision of `rc_encode_dummy` for every symbol). -/
-def outlimit_prefix_statement : Prop :=
-  ∀ (p : Props) (dictSize limit : Nat) (preset data : ByteArray) (trace : Array TraceRec) (res : EncResult),
-    6 ≤ limit → lzma1Encode p dictSize false limit (preset ++ data) preset.size trace = .ok res →
-    res.out.length ≤ limit ∧ res.consumed ≤ data.size
+/-- MicroLZMA (`lzma_microlzma_encoder`: output-size limit, no end marker). Whenever the executable encoder model — the
+    one the driver compares with the C encoder byte for byte, incl. the decision of `rc_encode_dummy` for every symbol —
+    accepts a trace with an output limit of at least 6 bytes (what `set_out_limit` requires):
+    * the output is at most `limit` bytes long,
+    * the reported `consumed` is at most the data size, and
+    * the executable LZMA1 decoder model, given the output, the preset dictionary, `consumed` as the known uncompressed
+      size and no end marker, returns LZMA_STREAM_END with exactly the first `consumed` bytes of the data, having read
+      every output byte. -/
+theorem outlimit_prefix (p : Props) (hp : PropsOk p) (dictSize : Nat) (hd : dictSize ≤ 4294967295) (limit : Nat)
+    (hlim : 6 ≤ limit) (preset data : ByteArray) (trace : Array TraceRec) (res : EncResult)
+    (h : lzma1Encode p dictSize false limit (preset ++ data) preset.size trace = .ok res) (outCap : Nat)
+    (hcap : res.consumed < outCap) :
+    res.out.length ≤ limit ∧ res.consumed ≤ data.size ∧
+    Lzma.lzmaDecode p dictSize (some res.consumed) false res.out preset.toList outCap =
+      { ret := .streamEnd, out := data.toList.take res.consumed, consumed := res.out.length } := by
+  have hsz : (preset ++ data).size = preset.size + data.size := ByteArray.size_append
+  have h2 := LzmaExec.micro_exec_prefix p hp dictSize hd limit (by omega) preset data trace res h outCap hcap
+  exact ⟨LzmaExec.lzma1Encode_limit_fits p hp dictSize hd limit hlim (preset ++ data) preset.size trace res (by omega) h,
+    h2.1, h2.2⟩
+
+/-- non-vacuity: the executable encoder accepts a (tiny) trace with an output limit -/
+example : (lzma1Encode { lc := 0, lp := 0, pb := 0 } 4096 false 6 (ByteArray.mk #[97]) 0 #[]).toOption.map
+    (fun r => (r.consumed, r.out.length)) = some (1, 6) := by
+  decide +kernel
 
 /-! ### match-finder position arithmetic (lz_encoder_mf.c `normalize`, lz_encoder.c `move_window`) -/
 
